@@ -1,5 +1,6 @@
 import Secp.Proofs.Decode
 import Secp.Proofs.WideReduceP
+import Secp.Proofs.BytesTies
 /-!
 # C12 — the base-field layer computes exact, canonical arithmetic in F_p
 
@@ -70,6 +71,18 @@ theorem bytes_correct {a : L4} (ha : a.ok) : Hand.Fp.bytes a = i2osp (limbVal a)
 theorem hashToField_correct (input : Bytes) (hb : IsBytes input) (hl : input.length = 48) :
     limbOk (Hand.Fp.hashToFieldElement input) ∧ limbVal (Hand.Fp.hashToFieldElement input) = ((os2ip input : Nat) : ZMod P) :=
   fp_hashToField input hb hl
+
+/-- **the byte-level functions regenerated from `internal/field` on this run** (`GenFieldBytes`: `bytesToInts`,
+`nonMontgomeryToBytes`, `Bytes`, `FromBytesWithReduce`, `FromBytesNoReduce`, `HashToFieldElement`, with every re-slice,
+`PutUint64`/`Uint64` length requirement and the `pad[32-len(input):]` bound as an `Option` step) do not panic on inputs of
+the stated lengths and compute the model's functions, which the three theorems above are about -/
+theorem byte_functions_regenerated (e : L4) (b : Bytes) :
+    GenFieldBytes.element_bytes e = some (Hand.Fp.bytes e) ∧
+    (b.length = 32 → GenFieldBytes.element_fromBytesWithReduce e b = some (Hand.Fp.fromBytesWithReduce b)) ∧
+    (b.length ≤ 32 → GenFieldBytes.element_fromBytesNoReduce e b = some (Hand.Fp.fromBytesNoReduce b)) ∧
+    (b.length = 48 → GenFieldBytes.element_hashToFieldElement e b = some (Hand.Fp.hashToFieldElement b)) :=
+  ⟨BytesTies.fp_bytes e, BytesTies.fp_fromBytesWithReduce e b, BytesTies.fp_fromBytesNoReduce e b,
+    BytesTies.fp_hashToFieldElement e b⟩
 
 /-- Montgomery conversions -/
 theorem fromMontgomery_correct {a : L4} (ha : a.ok) :
